@@ -198,3 +198,161 @@ Proof.
   exact (convert_store_rank_overlap lower1 lower2 index2 scale guard Hs Hm1 Hp1 Hm2 Hidx
            b r t i out Hwf Hp H Ht0 Ht Hi Hout).
 Qed.
+
+(* ---------------------------------------------------------------------- *)
+(** ** 3. Non-vacuity: a concrete mapping on all of Z satisfying every hypothesis
+
+    hz_lower k = k + 1 for k >= 0 and 1 / (1 - k) for k < 0  (... 1/3, 1/2, 1, 2, 3, ...),
+    hz_index   = its exact index, hz_value k = 4/3 * hz_lower k, relative accuracy 1/3
+    (every bin has ratio upper/lower <= 2). *)
+
+Definition lq (k : Z) : Q := if 0 <=? k then inject_Z (k + 1) else 1 # Z.to_pos (1 - k).
+Definition hz_lower (k : Z) : Qc := Q2Qc (lq k).
+Definition hz_index (x : Qc) : Z :=
+  let p := Qnum (this x) in let q := Zpos (Qden (this x)) in
+  if q <=? p then p / q - 1 else - ((q - 1) / p).
+Definition hz_value (k : Z) : Qc := (Q2Qc (4 # 3) * hz_lower k)%Qc.
+Definition hz_scale : Qc := Q2Qc (3 # 2).
+Definition hz_acc : Qc := Q2Qc (1 # 3).
+Definition hz_src : bins := [(0, Q2Qc 1); (1, Q2Qc 1); (2, Q2Qc 1)].
+
+Lemma lq_incr i j : i < j -> (lq i < lq j)%Q.
+Proof.
+  intros H. unfold lq. destruct (Z.leb_spec 0 i), (Z.leb_spec 0 j); try lia.
+  - rewrite <- Zlt_Qlt. lia.
+  - unfold Qlt. cbn [Qnum Qden inject_Z]. rewrite Z2Pos.id by lia. nia.
+  - unfold Qlt. cbn [Qnum Qden]. rewrite !Z2Pos.id by lia. lia.
+Qed.
+Lemma lq_pos k : (0 < lq k)%Q.
+Proof.
+  unfold lq. destruct (Z.leb_spec 0 k).
+  - change 0%Q with (inject_Z 0). rewrite <- Zlt_Qlt. lia.
+  - reflexivity.
+Qed.
+Lemma lq_double k : (lq (k + 1) <= 2 * lq k)%Q.
+Proof.
+  unfold lq. destruct (Z.leb_spec 0 k), (Z.leb_spec 0 (k + 1)); try lia.
+  - rewrite !inject_Z_plus.
+    assert (Hk : (inject_Z 0 <= inject_Z k)%Q) by (rewrite <- Zle_Qle; exact H).
+    change (inject_Z 0) with 0%Q in Hk. change (inject_Z 1) with 1%Q. lra.
+  - assert (k = -1) by lia. subst k. vm_compute. discriminate.
+  - unfold Qle, Qmult. cbn [Qnum Qden]. rewrite !Z2Pos.id by lia. lia.
+Qed.
+
+Lemma Q2Qc_lt a b : (a < b)%Q -> (Q2Qc a < Q2Qc b)%Qc.
+Proof. intros H. unfold Qclt. cbn [this Q2Qc]. rewrite !Qred_correct. exact H. Qed.
+Lemma Q2Qc_le a b : (a <= b)%Q -> (Q2Qc a <= Q2Qc b)%Qc.
+Proof. intros H. unfold Qcle. cbn [this Q2Qc]. rewrite !Qred_correct. exact H. Qed.
+
+Lemma hz_lower_incr : incr hz_lower.
+Proof. intros i j H. apply Q2Qc_lt. apply lq_incr. exact H. Qed.
+Lemma hz_lower_pos : positive hz_lower.
+Proof. intros k. change 0%Qc with (Q2Qc 0). apply Q2Qc_lt. apply lq_pos. Qed.
+
+Lemma hz_index_ok : index_spec hz_lower hz_index.
+Proof.
+  intros [[p q] Hc] Hx. unfold Qclt in Hx. cbn [this] in Hx.
+  assert (Hp : 0 < p). { unfold Qlt in Hx. cbn in Hx. lia. }
+  unfold hz_lower, hz_index, Qcle, Qclt. cbn [this Q2Qc Qnum Qden]. rewrite !Qred_correct.
+  pose proof (Pos2Z.is_pos q) as Hq.
+  destruct (Z.leb_spec (Zpos q) p) as [E|E].
+  - (* x >= 1 *)
+    assert (Hd : 1 <= p / Zpos q) by (apply Z.div_le_lower_bound; lia).
+    unfold lq. destruct (Z.leb_spec 0 (p / Zpos q - 1)); [|lia].
+    destruct (Z.leb_spec 0 (p / Zpos q - 1 + 1)); [|lia].
+    unfold Qle, Qlt. cbn [Qnum Qden inject_Z].
+    pose proof (Z.mul_div_le p (Zpos q) Hq). pose proof (Z.mul_succ_div_gt p (Zpos q) Hq).
+    split; nia.
+  - (* x < 1 *)
+    set (m := (Zpos q - 1) / p).
+    assert (Hm : 1 <= m) by (apply Z.div_le_lower_bound; lia).
+    pose proof (Z.mul_div_le (Zpos q - 1) p Hp) as M1.
+    pose proof (Z.mul_succ_div_gt (Zpos q - 1) p Hp) as M2. fold m in M1, M2.
+    unfold lq. destruct (Z.leb_spec 0 (- m)); [lia|]. split.
+    + unfold Qle. cbn [Qnum Qden]. rewrite Z2Pos.id by lia. nia.
+    + destruct (Z.leb_spec 0 (- m + 1)).
+      * assert (m = 1) by lia. unfold Qlt. cbn [Qnum Qden inject_Z]. lia.
+      * unfold Qlt. cbn [Qnum Qden]. rewrite Z2Pos.id by lia. nia.
+Qed.
+
+Lemma hz_accurate : accurate hz_lower hz_value hz_acc.
+Proof.
+  intros k x H1 H2. unfold hz_value, hz_acc.
+  assert (H3 : (hz_lower (k + 1) <= Q2Qc 2 * hz_lower k)%Qc).
+  { unfold hz_lower, Qcle. rewrite this_mult. cbn [this Q2Qc]. rewrite !Qred_correct.
+    apply lq_double. }
+  generalize dependent (hz_lower (k + 1)). generalize dependent (hz_lower k). intros l H1 u H2 H3.
+  unfold Qcle in *. rewrite ?this_minus, ?this_mult in *.
+  change (this (Q2Qc (4 # 3))) with (4 # 3)%Q. change (this (Q2Qc (1 # 3))) with (1 # 3)%Q.
+  change (this (Q2Qc 2)) with 2%Q in H3. split; lra.
+Qed.
+
+(* the conversion of three unit bins [1,2) [2,3) [3,4) at scale 3/2 *)
+Lemma hz_convert :
+  option_map bins_Q (convert_store hz_lower hz_lower hz_index hz_scale true hz_src)
+  = Some [(0, (1 # 3)%Q); (1, (2 # 3)%Q); (2, (2 # 3)%Q); (3, (2 # 3)%Q); (4, (2 # 3)%Q)].
+Proof. vm_compute. reflexivity. Qed.
+
+(* rank 1: source bin 1 (cumulative 1, 2, 3), result bin 2 (cumulative 1/3, 1, 5/3, ...) *)
+Lemma hz_ranks :
+  key_at_rank hz_src (Q2Qc 1) = Some 1 /\
+  (exists r, convert_store hz_lower hz_lower hz_index hz_scale true hz_src = Some r /\
+             key_at_rank r (Q2Qc 1) = Some 2).
+Proof. split; [vm_compute; reflexivity|]. eexists. split; [vm_compute; reflexivity|vm_compute; reflexivity]. Qed.
+
+(* theorem 1 instantiated: all its premises hold on these tables *)
+Theorem hz_rank_overlap :
+  forall (t : W) (i out : Z) (r : bins),
+  convert_store hz_lower hz_lower hz_index hz_scale true hz_src = Some r ->
+  (w0 <= t)%Qc -> (t < Q2Qc 3)%Qc ->
+  key_at_rank hz_src t = Some i -> key_at_rank r t = Some out ->
+  overlap hz_lower hz_lower hz_scale i out.
+Proof.
+  intros t i out r H Ht0 Ht Hi Hout.
+  apply (convert_store_rank_overlap hz_lower hz_lower hz_index hz_scale true) with (b := hz_src) (r := r) (t := t);
+    try assumption.
+  - vm_compute. reflexivity.
+  - exact hz_lower_incr.
+  - exact hz_lower_pos.
+  - exact hz_lower_incr.
+  - exact hz_index_ok.
+  - vm_compute. reflexivity.
+  - apply posb_pos. vm_compute. reflexivity.
+Qed.
+
+(* theorem 2 instantiated at rank 1: 2/3 * (3/2 * 8/3) <= 4/3 * 4  and  2/3 * 4 <= 4/3 * (3/2 * 8/3) *)
+Theorem hz_quantile_ratio :
+  ((1 - hz_acc) * (hz_scale * hz_value 1) <= (1 + hz_acc) * hz_value 2)%Qc /\
+  ((1 - hz_acc) * hz_value 2 <= (1 + hz_acc) * (hz_scale * hz_value 1))%Qc.
+Proof.
+  destruct hz_ranks as [Hi [r [Hr Hout]]].
+  apply (rank_value_ratio hz_lower hz_lower hz_index hz_scale true hz_value hz_value hz_acc hz_acc)
+    with (b := hz_src) (r := r) (t := Q2Qc 1); try assumption.
+  - vm_compute. reflexivity.
+  - exact hz_lower_incr.
+  - exact hz_lower_pos.
+  - exact hz_lower_incr.
+  - exact hz_index_ok.
+  - vm_compute. discriminate.
+  - vm_compute. reflexivity.
+  - vm_compute. discriminate.
+  - vm_compute. reflexivity.
+  - exact hz_accurate.
+  - exact hz_accurate.
+  - vm_compute. reflexivity.
+  - apply posb_pos. vm_compute. reflexivity.
+  - vm_compute. discriminate.
+  - vm_compute. reflexivity.
+Qed.
+
+(* the premises of the two theorems, all at once, on these tables *)
+Theorem hz_tables_ok :
+  (w0 < hz_scale)%Qc /\ incr hz_lower /\ positive hz_lower /\ index_spec hz_lower hz_index /\
+  (0 <= hz_acc)%Qc /\ (hz_acc < 1)%Qc /\ accurate hz_lower hz_value hz_acc /\
+  wf hz_src = true /\ pos hz_src /\ total hz_src = Q2Qc 3.
+Proof.
+  split; [vm_compute; reflexivity|]. split; [exact hz_lower_incr|]. split; [exact hz_lower_pos|].
+  split; [exact hz_index_ok|]. split; [vm_compute; discriminate|]. split; [vm_compute; reflexivity|].
+  split; [exact hz_accurate|]. split; [vm_compute; reflexivity|].
+  split; [apply posb_pos; vm_compute; reflexivity|]. apply Qc_is_canon. vm_compute. reflexivity.
+Qed.
